@@ -78,6 +78,7 @@ void snoopy_message_generateFromFormat (
     while (strlen(fmtPos_nextFormatTag) > 0) {
         size_t lengthToCopy;
         char *dataSourceTag;
+        char *literalText;
         char *fmtPos_dataSourceTagArg;
         const char *dataSourceNamePtr;
         const char *dataSourceArgPtr;
@@ -92,14 +93,10 @@ void snoopy_message_generateFromFormat (
         }
 
         // Otherwise copy text up to the next data source tag
-        lengthToCopy = (int) (fmtPos_nextFormatTag - fmtPos_cur + 1); // + 1 for null termination
-        if (lengthToCopy > dataSourceMsgBufSize) {
-            lengthToCopy = dataSourceMsgBufSize;
-        }
-        dataSourceMsg[0] = '\0'; // Let's just use this buffer, even if it is called something else
-        snprintf(dataSourceMsg, lengthToCopy, "%s", fmtPos_cur);
-        snoopy_message_append(logMessage, logMessageBufSize, dataSourceMsg);
-        dataSourceMsg[0] = '\0'; // And wipe it for later reuse
+        lengthToCopy = (size_t) (fmtPos_nextFormatTag - fmtPos_cur);
+        literalText  = strndup(fmtPos_cur, lengthToCopy);
+        snoopy_message_append(logMessage, logMessageBufSize, literalText);
+        free(literalText);
 
         // Get data source tag
         fmtPos_nextFormatTagClose = strstr(fmtPos_nextFormatTag, "}");
